@@ -47,8 +47,11 @@ type Contract struct {
 	Unroll     map[int]int
 	Panics     *Clause
 	Inline     bool
+	Hooks      []*AtHook // ghost updates / assertions attached to source lines (after "<text>": ... / before "<text>": ...)
+	GhostVars  []GhostVar
 	Abstracts  []*Clause // postconditions ASSUMED at call sites and not checked in the body (reported as unchecked abstractions)
 	Trusted    bool
+	BitVector  bool // verified by translation to bit-vectors (bv.go)
 	ExternDep  bool // assumed contract of a dependency function (extern func)
 	Emits      bool // may extend the call trace
 	Allocs     bool // may allocate (moves the allocation frontier)
@@ -61,6 +64,26 @@ type Contract struct {
 	Witness    []WitnessDecl
 	Holds      []HoldDecl
 	Acquires   []HoldDecl // locks the function takes (and releases) itself
+}
+
+// GhostVar: a specification-only variable of the function under verification.
+type GhostVar struct {
+	Name string
+	Type string
+	Init *SExpr
+}
+
+// AtHook is attached to the unique source line of the function that contains
+// Text: After hooks run after the assignment (store to a local) on that line,
+// Before hooks run before the call on that line.
+type AtHook struct {
+	Before bool
+	All    bool // the text may occur on several lines; the hook is attached to each
+	Text   string
+	Kind   string // "set", "assert", "assume"
+	Ghost  string // Kind set: the ghost variable assigned
+	Clause *Clause
+	Where  string
 }
 
 // HoldDecl: a lock the caller holds on entry (and still holds on return).
@@ -140,7 +163,7 @@ type PkgSpec struct {
 	ExtFuncs  map[string]*Contract // assumed contracts of dependency functions, keyed by ssa.Function.String()
 }
 
-var keywordRe = regexp.MustCompile(`^(abstracts|func|token|require|monotone|mark|witness|pred|pure|axiom|lemma|extern|closed|protocol|lock|property|requires|ensures|case|modifies|loop|panics|inline|trusted|emits|allocs|unroll|shared|ghost|inv|threads|on|guar|protects|discipline|initonly|atomic|noframe|level|assume|self|local|single|init|rely|counter|holds|acquires)\b`)
+var keywordRe = regexp.MustCompile(`^(abstracts|after|before|bitvector|func|token|require|monotone|mark|witness|pred|pure|axiom|lemma|extern|closed|protocol|lock|property|requires|ensures|case|modifies|loop|panics|inline|trusted|emits|allocs|unroll|shared|ghost|inv|threads|on|guar|protects|discipline|initonly|atomic|noframe|level|assume|self|local|single|init|rely|counter|holds|acquires)\b`)
 
 // parseContractFile extracts the //@ lines of a file.
 func parseContractComments(f *ast.File, fname string) []specLine {
@@ -575,6 +598,8 @@ func (c *Contract) parseLine(curCase **Case, kw, rest, where string) error {
 		c.Inline = true
 	case "trusted":
 		c.Trusted = true
+	case "bitvector":
+		c.BitVector = true
 	case "emits":
 		c.Emits = true
 	case "allocs":
@@ -588,7 +613,58 @@ func (c *Contract) parseLine(curCase **Case, kw, rest, where string) error {
 	case "atomic":
 		c.Atomic = append(c.Atomic, rest)
 	case "ghost":
+		if i := strings.Index(rest, "="); i >= 0 && !strings.Contains(rest, ",") {
+			// ghost name T = init  (a specification variable of this function)
+			pv := parseParams(rest[:i])
+			x, err := parseSpec(strings.TrimSpace(rest[i+1:]))
+			if err != nil || len(pv) != 1 {
+				return fmt.Errorf("%s: ghost name T = init: %v", where, err)
+			}
+			c.GhostVars = append(c.GhostVars, GhostVar{Name: pv[0].Name, Type: pv[0].Type, Init: x})
+			break
+		}
 		c.Ghost = append(c.Ghost, parseParams(rest)...)
+	case "after", "before":
+		// after "<source text>": g = expr | assert @label expr | assume @label expr
+		all := false
+		if strings.HasPrefix(rest, "all ") {
+			all = true
+			rest = strings.TrimSpace(strings.TrimPrefix(rest, "all "))
+		}
+		q1 := strings.Index(rest, "\"")
+		q2 := -1
+		if q1 >= 0 {
+			q2 = strings.Index(rest[q1+1:], "\"")
+		}
+		if q1 != 0 || q2 < 0 {
+			return fmt.Errorf("%s: %s \"<source text>\": ...", where, kw)
+		}
+		text := rest[1 : 1+q2]
+		body := strings.TrimSpace(rest[q2+2:])
+		body = strings.TrimSpace(strings.TrimPrefix(body, ":"))
+		h := &AtHook{Before: kw == "before", Text: text, Where: where, All: all}
+		switch {
+		case strings.HasPrefix(body, "assert "):
+			h.Kind = "assert"
+			body = strings.TrimPrefix(body, "assert ")
+		case strings.HasPrefix(body, "assume "):
+			h.Kind = "assume"
+			body = strings.TrimPrefix(body, "assume ")
+		default:
+			h.Kind = "set"
+			i := strings.Index(body, "=")
+			if i <= 0 {
+				return fmt.Errorf("%s: ghost assignment g = expr expected", where)
+			}
+			h.Ghost = strings.TrimSpace(body[:i])
+			body = strings.TrimSpace(body[i+1:])
+		}
+		cl, err := parseLabelled(body, where)
+		if err != nil {
+			return err
+		}
+		h.Clause = cl
+		c.Hooks = append(c.Hooks, h)
 	case "acquires":
 		// acquires <expr>.<lockfield>[, ...]
 		for _, a := range splitTop(rest) {
